@@ -96,3 +96,68 @@ Definition ol_empty (l : option (list bool)) : cres :=                          
   match l with Some x => c_bool (is_nil x) | None => CStuck end.
 (* <targets> = <expressions> : the right-hand sides are evaluated before anything that follows *)
 Definition f_bind {A} (v : option A) (k : option A -> fres) : fres := match v with Some _ => k v | None => FStuck end.
+
+(* ================================================================== part 3: procedures — loops, try/except, calls, state
+   Used for Experiment._validate_schedules, __init__, the five setters, _validate_schedule_index / calc_prob_dist and the
+   schedule prologue of the four tomography constructors.  An exception is identified by its class NAME; `except (A, B)`
+   catches exactly the listed names (the classes raised in the translated code — TypeError, ValueError, IndexError,
+   QuaraScheduleItemError, QuaraScheduleOrderError — are pairwise unrelated by inheritance, so name matching is exact;
+   an exception of any other class simply is not caught here, which can only make the re-proof fail, never pass wrongly). *)
+Inductive xres :=
+| XPass                    (* the statement(s) completed *)
+| XRaise (exc : string)    (* an exception of the class named exc propagates *)
+| XStuck.                  (* outside the defined vocabulary *)
+Definition x_of_fres (f : fres) : xres :=
+  match f with FPass => XPass | FRaise _ e => XRaise e | FIndexError => XRaise "IndexError" | FStuck => XStuck end.
+(* s1 ; s2 *)
+Definition x_seq (a b : xres) : xres := match a with XPass => b | _ => a end.
+(* try: body  except (names): <handler, which ends in a raise> *)
+Definition x_try (body : xres) (names : list string) (handler : xres) : xres :=
+  match body with
+  | XRaise e => if existsb (String.eqb e) names then handler else body
+  | r => r
+  end.
+(* for x in <list>: body x      (the first iteration that does not complete ends the loop) *)
+Fixpoint x_for {A} (l : list A) (body : A -> xres) : xres :=
+  match l with [] => XPass | a :: r => x_seq (body a) (x_for r body) end.
+(* for j, item in enumerate(schedule): ...   where schedule is an arbitrary value: a non-iterable one raises TypeError *)
+Definition x_for_sched (s : rsched) (body : pyval -> xres) : xres :=
+  match s with SSeq items => x_for items body | SNonIter => XRaise "TypeError" end.
+(* self._validate_schedule_order(schedule): the order validator is translated on TYPED items; a raw schedule is typed when
+   every item is a (kind name : str, index : int) 2-tuple (parse_items), anything else is outside the vocabulary *)
+Definition x_call_order (order : list titem -> fres) (s : rsched) : xres :=
+  match s with
+  | SSeq items => match parse_items items with Some t => x_of_fres (order t) | None => XStuck end
+  | SNonIter => XStuck
+  end.
+(* a class guard `for i, schedule in enumerate(schedules): <guard body>` on raw schedules, same convention *)
+Definition x_call_guard (guard : list titem -> fres) (s : rsched) : xres := x_call_order guard s.
+
+(* statements that change the experiment: (state after, outcome).  s_then x st k : x completed -> continue with k, otherwise
+   the exception propagates and the state is what it was at that point *)
+Definition s_then (x : xres) (st : exp) (k : exp * xres) : exp * xres := match x with XPass => k | r => (st, r) end.
+Definition set_objs (e : exp) (k : kind) (v : list bool) : exp := mkexp (with_objs (e_cfg e) k v) (e_scheds e).
+Definition set_scheds (e : exp) (ss : list rsched) : exp := mkexp (e_cfg e) ss.
+(* an optional list argument:  [] if x is None else x *)
+Definition or_nil (x : option (list bool)) : list bool := match x with Some l => l | None => [] end.
+
+(* calc_prob_dist: what is handed to compose_qoperations *)
+Inductive crun :=
+| CRCompose (targets : list titem)   (* op.compose_qoperations is called with the referenced objects as arguments, in THIS order *)
+| CRRaise (exc : string)
+| CRStuck.
+(* self.schedules[schedule_index]  for a validated int index *)
+Definition sl_get (ss : list rsched) (i : option Z) : option rsched :=
+  match i with Some z => if (0 <=? z)%Z then nth_error ss (Z.to_nat z) else None | None => None end.
+Definition sl_len (ss : list rsched) : option Z := Some (Z.of_nat (List.length ss)).
+(* for item in schedule: k, i = item ; target = key_map[k][i] ; if not target: raise ValueError(..) ; targets.appendleft(target)
+   [present c it] : the referenced object is not None (quara objects are truthy) *)
+Definition item_present (c : cfg) (it : titem) : bool := nth (Z.to_nat (snd it)) (objs c (fst it)) false.
+Fixpoint collect_left (c : cfg) (items : list pyval) (targets : list titem) (exc : string) : crun :=
+  match items with
+  | [] => CRCompose targets
+  | v :: r => match parse_item v with
+              | Some it => if item_present c it then collect_left c r (it :: targets) exc else CRRaise exc
+              | None => CRStuck
+              end
+  end.
